@@ -2,28 +2,36 @@
 (***************************************************************************)
 (* rrtk's terminal graph: terminals (own state slot, own command slot,     *)
 (* link to at most one partner), connect / disconnect, the three terminal  *)
-(* reads, and the update rules of the inverter, gear train, axle and       *)
-(* differential.                                                           *)
+(* reads, the update rules of the inverter, gear train, axle and           *)
+(* differential, and terminals that follow getters.                        *)
 (*                                                                         *)
 (* A scenario (variable `scen') fixes the devices and the initial links:   *)
 (*   Family "single"  one device, each of its terminals optionally joined  *)
 (*                    to an external terminal                              *)
 (*   Family "chain"   ext0 - D1 - D2 - ... - Dn - extn                     *)
 (*   Family "match"   bare terminals, connect / disconnect only            *)
+(*   Family "follow"  one device whose own terminals FOLLOW scripted       *)
+(*                    getters of state data and command data: a device     *)
+(*                    update first updates its terminals (each pulls its   *)
+(*                    command getter, then its state getter, and stores a  *)
+(*                    present datum in its own slot; an error aborts the   *)
+(*                    whole update at that point and is returned), then    *)
+(*                    computes as usual                                    *)
 (* Timestamps are ranks (only compared by the code); states are triples of *)
 (* exact rationals (position, velocity, acceleration), commands a kind     *)
 (* 0..2 and a rational.                                                    *)
 (***************************************************************************)
 EXTENDS Integers, Sequences, FiniteSets, TLC, Json, Rat, Outcome, TerminalLinks
 
-CONSTANTS Family,    \* "single" | "chain" | "match" | "matchdata"
+CONSTANTS Family,    \* "single" | "chain" | "match" | "matchdata" | "follow"
           DevTypes,  \* device types explored ("invert", "gear", "axle", "diff")
           MaxLen, Emit, Rich,
           NT,        \* number of terminals for the match families
           InitAny    \* match family: start from every matching (TRUE) or from the empty one (FALSE)
 
-VARIABLES scen, link, ost, ocmd, now, hist, n, sweep
-vars == <<scen, link, ost, ocmd, now, hist, n, sweep>>
+VARIABLES scen, link, ost, ocmd, now, hist, n, sweep,
+          fol        \* per terminal: is it following getters, and what its state getter / command getter currently return
+vars == <<scen, link, ost, ocmd, now, hist, n, sweep, fol>>
 
 -----------------------------------------------------------------------------
 Mod(a, b) == a % b
@@ -105,7 +113,13 @@ ChainScens ==
 
 MatchScen == [devs |-> <<>>, nt |-> NT, pre |-> {}, cons |-> FALSE, links |-> [x \in 1..NT |-> 0]]
 
+FollowScens ==
+  {SingleScen(Dev("invert", <<1, 2>>, One, "none"), 2, {1, 2}), SingleScen(Dev("gear", <<1, 2>>, RI(2), "none"), 2, {1, 2}),
+   SingleScen(Dev("axle", <<1, 2, 3>>, One, "none"), 3, {1, 2, 3}), SingleScen(Dev("diff", <<1, 2, 3>>, One, "sum"), 3, {1, 2, 3})} \cup
+  (IF Rich THEN {SingleScen(Dev("gear", <<1, 2>>, R(-1, 2), "none"), 2, {2}), SingleScen(Dev("diff", <<1, 2, 3>>, One, "equal"), 3, {1, 2, 3}),
+                 SingleScen(Dev("diff", <<1, 2, 3>>, One, "side1"), 3, {1, 3})} ELSE {})
 Scens == CASE Family = "single" -> SingleScens
+           [] Family = "follow" -> FollowScens
            [] Family = "chain" -> ChainScens
            [] Family \in {"match", "matchdata"} -> {MatchScen}
 
@@ -135,114 +149,128 @@ ReadDataIn(l, s, c, x) ==
 (* Unlink and ConnectL are defined in module TerminalLinks *)
 
 -----------------------------------------------------------------------------
-(* Device updates.  Each returns <<ost', ocmd'>>.                          *)
+(* Device updates.  Each takes the own states s0 and own commands c0 it works on and returns the new pair.                          *)
 NewerOrEq(a, b) == a.t >= b.t
 SetS(s, x, d) == [s EXCEPT ![x] = Just(d)]
 
-InvertUpdate(d) ==
+InvertUpdate(d, s0, c0) ==
   LET a == d.terms[1]
       b == d.terms[2]
-      g1 == ReadState(a)
-      g2 == ReadState(b)
-      s1 == IF IsNothing(g1) /\ IsNothing(g2) THEN ost
-            ELSE IF IsNothing(g1) THEN SetS(ost, a, SD(The(g2).t, TNeg(The(g2).v)))
-            ELSE IF IsNothing(g2) THEN SetS(ost, b, SD(The(g1).t, TNeg(The(g1).v)))
+      g1 == ReadStateIn(link, s0, a)
+      g2 == ReadStateIn(link, s0, b)
+      s1 == IF IsNothing(g1) /\ IsNothing(g2) THEN s0
+            ELSE IF IsNothing(g1) THEN SetS(s0, a, SD(The(g2).t, TNeg(The(g2).v)))
+            ELSE IF IsNothing(g2) THEN SetS(s0, b, SD(The(g1).t, TNeg(The(g1).v)))
             ELSE LET t == MaxI(The(g1).t, The(g2).t)
                      v == TDiv(TSub(The(g1).v, The(g2).v), Two)
-                 IN  SetS(SetS(ost, a, SD(t, v)), b, SD(t, TNeg(v)))
-      c1 == ReadCmd(a)
-      c2 == ReadCmd(b)
+                 IN  SetS(SetS(s0, a, SD(t, v)), b, SD(t, TNeg(v)))
+      c1 == ReadCmdIn(link, c0, a)
+      c2 == ReadCmdIn(link, c0, b)
       pick == IF IsNothing(c1) /\ IsNothing(c2) THEN Nothing
               ELSE IF IsNothing(c2) THEN c1
               ELSE IF IsNothing(c1) THEN Just(CNeg(The(c2)))
               ELSE IF NewerOrEq(The(c1), The(c2)) THEN c1 ELSE Just(CNeg(The(c2)))
-      cN == IF IsNothing(pick) THEN ocmd
-            ELSE [ocmd EXCEPT ![a] = pick, ![b] = Just(CNeg(The(pick)))]
+      cN == IF IsNothing(pick) THEN c0
+            ELSE [c0 EXCEPT ![a] = pick, ![b] = Just(CNeg(The(pick)))]
   IN  <<s1, cN>>
 
-GearUpdate(d) ==
+GearUpdate(d, s0, c0) ==
   LET a == d.terms[1]
       b == d.terms[2]
       r == d.ratio
-      g1 == ReadState(a)
-      g2 == ReadState(b)
-      s1 == IF IsNothing(g1) /\ IsNothing(g2) THEN ost
-            ELSE IF IsNothing(g1) THEN SetS(ost, a, SD(The(g2).t, TDiv(The(g2).v, r)))
-            ELSE IF IsNothing(g2) THEN SetS(ost, b, SD(The(g1).t, TMul(The(g1).v, r)))
+      g1 == ReadStateIn(link, s0, a)
+      g2 == ReadStateIn(link, s0, b)
+      s1 == IF IsNothing(g1) /\ IsNothing(g2) THEN s0
+            ELSE IF IsNothing(g1) THEN SetS(s0, a, SD(The(g2).t, TDiv(The(g2).v, r)))
+            ELSE IF IsNothing(g2) THEN SetS(s0, b, SD(The(g1).t, TMul(The(g1).v, r)))
             ELSE LET t == MaxI(The(g1).t, The(g2).t)
                      den == RAdd(RMul(r, r), One)
                      xry == TAdd(The(g1).v, TMul(The(g2).v, r))
-                 IN  SetS(SetS(ost, a, SD(t, TDiv(xry, den))), b, SD(t, TDiv(TMul(xry, r), den)))
-      c1 == ReadCmd(a)
-      c2 == ReadCmd(b)
-      cN == IF IsNothing(c1) /\ IsNothing(c2) THEN ocmd
-            ELSE IF IsNothing(c2) THEN [ocmd EXCEPT ![b] = Just(CScale(The(c1), r))]
-            ELSE IF IsNothing(c1) THEN [ocmd EXCEPT ![a] = Just(CDivide(The(c2), r))]
-            ELSE IF NewerOrEq(The(c1), The(c2)) THEN [ocmd EXCEPT ![b] = Just(CScale(The(c1), r))]
-            ELSE [ocmd EXCEPT ![a] = Just(CDivide(The(c2), r))]
+                 IN  SetS(SetS(s0, a, SD(t, TDiv(xry, den))), b, SD(t, TDiv(TMul(xry, r), den)))
+      c1 == ReadCmdIn(link, c0, a)
+      c2 == ReadCmdIn(link, c0, b)
+      cN == IF IsNothing(c1) /\ IsNothing(c2) THEN c0
+            ELSE IF IsNothing(c2) THEN [c0 EXCEPT ![b] = Just(CScale(The(c1), r))]
+            ELSE IF IsNothing(c1) THEN [c0 EXCEPT ![a] = Just(CDivide(The(c2), r))]
+            ELSE IF NewerOrEq(The(c1), The(c2)) THEN [c0 EXCEPT ![b] = Just(CScale(The(c1), r))]
+            ELSE [c0 EXCEPT ![a] = Just(CDivide(The(c2), r))]
   IN  <<s1, cN>>
 
-RECURSIVE AxleSum(_, _)
-AxleSum(ts, i) ==     \* <<count, max time, sum>> over the first i terminals that have data
+RECURSIVE AxleSum(_, _, _)
+AxleSum(ts, i, s0) ==     \* <<count, max time, sum>> over the first i terminals that have data
   IF i = 0 THEN <<0, -1000000, TZero>>
-  ELSE LET p == AxleSum(ts, i - 1)
-           g == ReadState(ts[i])
+  ELSE LET p == AxleSum(ts, i - 1, s0)
+           g == ReadStateIn(link, s0, ts[i])
        IN  IF IsNothing(g) THEN p ELSE <<p[1] + 1, MaxI(p[2], The(g).t), TAdd(p[3], The(g).v)>>
-RECURSIVE AxleNewest(_, _)
-AxleNewest(ts, i) ==  \* newest command, the first of the newest on ties
+RECURSIVE AxleNewest(_, _, _)
+AxleNewest(ts, i, c0) ==  \* newest command, the first of the newest on ties
   IF i = 0 THEN Nothing
-  ELSE LET p == AxleNewest(ts, i - 1)
-           g == ReadCmd(ts[i])
+  ELSE LET p == AxleNewest(ts, i - 1, c0)
+           g == ReadCmdIn(link, c0, ts[i])
        IN  IF IsNothing(g) THEN p
            ELSE IF IsNothing(p) THEN g
            ELSE IF The(g).t > The(p).t THEN g ELSE p
-AxleUpdate(d) ==
+AxleUpdate(d, s0, c0) ==
   LET ts == d.terms
       m == Len(ts)
-      acc == AxleSum(ts, m)
-      s1 == IF acc[1] = 0 THEN ost
-            ELSE [x \in DOMAIN ost |-> IF \E i \in 1..m : ts[i] = x
-                                       THEN Just(SD(acc[2], TDiv(acc[3], RI(acc[1])))) ELSE ost[x]]
-      nw == AxleNewest(ts, m)
-      cN == IF IsNothing(nw) THEN ocmd
-            ELSE [x \in DOMAIN ocmd |-> IF \E i \in 1..m : ts[i] = x THEN nw ELSE ocmd[x]]
+      acc == AxleSum(ts, m, s0)
+      s1 == IF acc[1] = 0 THEN s0
+            ELSE [x \in DOMAIN s0 |-> IF \E i \in 1..m : ts[i] = x
+                                       THEN Just(SD(acc[2], TDiv(acc[3], RI(acc[1])))) ELSE s0[x]]
+      nw == AxleNewest(ts, m, c0)
+      cN == IF IsNothing(nw) THEN c0
+            ELSE [x \in DOMAIN c0 |-> IF \E i \in 1..m : ts[i] = x THEN nw ELSE c0[x]]
   IN  <<s1, cN>>
 
 Max3(a, b, c) == MaxI(MaxI(a, b), c)
-DiffUpdate(d) ==
+DiffUpdate(d, s0, c0) ==
   LET a == d.terms[1]
       b == d.terms[2]
       c == d.terms[3]
-      g1 == ReadState(a)
-      g2 == ReadState(b)
-      gs == ReadState(c)
+      g1 == ReadStateIn(link, s0, a)
+      g2 == ReadStateIn(link, s0, b)
+      gs == ReadStateIn(link, s0, c)
       s1 == CASE d.distrust = "side1" ->
-                   IF IsNothing(gs) \/ IsNothing(g2) THEN ost
-                   ELSE SetS(ost, a, SD(MaxI(The(gs).t, The(g2).t), TSub(The(gs).v, The(g2).v)))
+                   IF IsNothing(gs) \/ IsNothing(g2) THEN s0
+                   ELSE SetS(s0, a, SD(MaxI(The(gs).t, The(g2).t), TSub(The(gs).v, The(g2).v)))
               [] d.distrust = "side2" ->
-                   IF IsNothing(gs) \/ IsNothing(g1) THEN ost
-                   ELSE SetS(ost, b, SD(MaxI(The(gs).t, The(g1).t), TSub(The(gs).v, The(g1).v)))
+                   IF IsNothing(gs) \/ IsNothing(g1) THEN s0
+                   ELSE SetS(s0, b, SD(MaxI(The(gs).t, The(g1).t), TSub(The(gs).v, The(g1).v)))
               [] d.distrust = "sum" ->
-                   IF IsNothing(g1) \/ IsNothing(g2) THEN ost
-                   ELSE SetS(ost, c, SD(MaxI(The(g1).t, The(g2).t), TAdd(The(g1).v, The(g2).v)))
+                   IF IsNothing(g1) \/ IsNothing(g2) THEN s0
+                   ELSE SetS(s0, c, SD(MaxI(The(g1).t, The(g2).t), TAdd(The(g1).v, The(g2).v)))
               [] d.distrust = "equal" ->
-                   IF IsNothing(g1) \/ IsNothing(g2) \/ IsNothing(gs) THEN ost
+                   IF IsNothing(g1) \/ IsNothing(g2) \/ IsNothing(gs) THEN s0
                    ELSE LET t == Max3(The(g1).t, The(g2).t, The(gs).t)
                             x == The(g1).v
                             y == The(g2).v
                             z == The(gs).v
                             three == RI(3)
-                        IN  SetS(SetS(SetS(ost,
+                        IN  SetS(SetS(SetS(s0,
                               c, SD(t, TDiv(TAdd(TAdd(x, y), TMul(z, Two)), three))),
                               a, SD(t, TDiv(TAdd(TSub(TMul(x, Two), y), z), three))),
                               b, SD(t, TDiv(TAdd(TAdd(TNeg(x), TMul(y, Two)), z), three)))
-  IN  <<s1, ocmd>>     \* a differential never touches commands
+  IN  <<s1, c0>>     \* a differential never touches commands
 
-DevUpdate(d) ==
-  CASE d.type = "invert" -> InvertUpdate(d)
-    [] d.type = "gear" -> GearUpdate(d)
-    [] d.type = "axle" -> AxleUpdate(d)
-    [] d.type = "diff" -> DiffUpdate(d)
+(* Device::update_terminals: every own terminal, in the device's order, pulls its command getter and then its state getter *)
+(* (Terminal::update); a present datum goes into the own slot as it is; the first error ends the update and is returned.    *)
+FolOff == [on |-> FALSE, s |-> Absent, c |-> Absent]
+RECURSIVE PullFrom(_, _, _, _)
+PullFrom(ts, i, s0, c0) ==
+  IF i > Len(ts) THEN [s |-> s0, c |-> c0, ret |-> RetOk]
+  ELSE LET x == ts[i]
+           f == fol[x]
+       IN  IF ~f.on THEN PullFrom(ts, i + 1, s0, c0)
+           ELSE IF IsErr(f.c) THEN [s |-> s0, c |-> c0, ret |-> RetErr(f.c.e)]
+           ELSE LET c1 == IF IsSome(f.c) THEN [c0 EXCEPT ![x] = Just(CD(f.c.t, f.c.v.k, f.c.v.v))] ELSE c0
+                IN  IF IsErr(f.s) THEN [s |-> s0, c |-> c1, ret |-> RetErr(f.s.e)]
+                    ELSE PullFrom(ts, i + 1, IF IsSome(f.s) THEN [s0 EXCEPT ![x] = Just(SD(f.s.t, f.s.v))] ELSE s0, c1)
+
+DevUpdate(d, s0, c0) ==
+  CASE d.type = "invert" -> InvertUpdate(d, s0, c0)
+    [] d.type = "gear" -> GearUpdate(d, s0, c0)
+    [] d.type = "axle" -> AxleUpdate(d, s0, c0)
+    [] d.type = "diff" -> DiffUpdate(d, s0, c0)
 
 -----------------------------------------------------------------------------
 (* Observation of every terminal after an action (what the harness reads). *)
@@ -286,20 +314,21 @@ Init ==
   /\ hist = IF Emit THEN <<[a |-> [op |-> "init"], obs |-> ObsAll(link, ost, ocmd)]>> ELSE <<>>
   /\ n = 0
   /\ sweep = [on |-> FALSE]
+  /\ fol = [x \in 1..scen.nt |-> IF Family = "follow" /\ x <= Len(scen.devs[1].terms) THEN [FolOff EXCEPT !.on = TRUE] ELSE FolOff]
 
 Record(a, l, s, c) == IF Emit THEN Append(hist, [a |-> a, obs |-> ObsAll(l, s, c)]) ELSE hist
 
 SetState(x) ==
   /\ now' = now + 1
   /\ ost' = [ost EXCEPT ![x] = Just(SD(now', StateVal(x, now')))]
-  /\ UNCHANGED <<link, ocmd, scen>>
+  /\ UNCHANGED <<link, ocmd, scen, fol>>
   /\ sweep' = sweep
   /\ hist' = Record([op |-> "setstate", x |-> x, t |-> now', v |-> StateVal(x, now')], link, ost', ocmd)
 
 SetCmdK(x, k) ==
   /\ now' = now + 1
   /\ ocmd' = [ocmd EXCEPT ![x] = Just(CD(now', k, CmdVal(x, now')))]
-  /\ UNCHANGED <<link, ost, scen>>
+  /\ UNCHANGED <<link, ost, scen, fol>>
   /\ sweep' = IF Family = "chain" /\ x = 1
               THEN [on |-> TRUE, next |-> 1, cmd |-> CD(now', k, CmdVal(x, now'))]
               ELSE [on |-> FALSE]        \* a newer command elsewhere ends the tracked sweep
@@ -307,22 +336,36 @@ SetCmdK(x, k) ==
 SetCmd(x) == IF Rich THEN \E k \in 0..2 : SetCmdK(x, k) ELSE SetCmdK(x, CmdKind(x, now + 1))
 
 Update(j) ==
-  LET r == DevUpdate(scen.devs[j])
+  LET d == scen.devs[j]
+      p == PullFrom(d.terms, 1, ost, ocmd)                       \* identity unless some terminal follows a getter
+      r == IF p.ret = RetOk THEN DevUpdate(d, p.s, p.c) ELSE <<p.s, p.c>>
   IN  /\ ost' = r[1]
       /\ ocmd' = r[2]
-      /\ UNCHANGED <<link, now, scen>>
+      /\ UNCHANGED <<link, now, scen, fol>>
       /\ sweep' = IF sweep.on /\ sweep.next = j THEN [sweep EXCEPT !.next = j + 1] ELSE sweep
-      /\ hist' = Record([op |-> "update", d |-> j], link, ost', ocmd')
+      /\ hist' = Record([op |-> "update", d |-> j, ret |-> p.ret], link, ost', ocmd')
+
+(* the environment changes what a followed getter returns: an error, nothing, a fresh datum, or a datum with an old timestamp *)
+GetOutcome(x, which, o, t) ==
+  CASE o = "err" -> Err(IF which = "s" THEN 1 ELSE 2)
+    [] o = "none" -> Absent
+    [] o = "some" -> Some(t, IF which = "s" THEN StateVal(x, t) ELSE [k |-> CmdKind(x, t), v |-> CmdVal(x, t)])
+    [] o = "old" -> Some(0, IF which = "s" THEN StateVal(x, t) ELSE [k |-> CmdKind(x, t), v |-> CmdVal(x, t)])
+SetGetter(x, which, o) ==
+  /\ now' = now + 1
+  /\ fol' = [fol EXCEPT ![x] = IF which = "s" THEN [@ EXCEPT !.s = GetOutcome(x, "s", o, now')] ELSE [@ EXCEPT !.c = GetOutcome(x, "c", o, now')]]
+  /\ UNCHANGED <<link, ost, ocmd, scen, sweep>>
+  /\ hist' = Record([op |-> "getter", x |-> x, which |-> which, o |-> GetOutcome(x, which, o, now')], link, ost, ocmd)
 
 Connect(i, j) ==
   /\ i # j
   /\ link' = ConnectL(link, i, j)
-  /\ UNCHANGED <<ost, ocmd, now, scen, sweep>>
+  /\ UNCHANGED <<ost, ocmd, now, scen, sweep, fol>>
   /\ hist' = Record([op |-> "connect", i |-> i, j |-> j], link', ost, ocmd)
 
 Disconnect(i) ==
   /\ link' = Unlink(link, i)
-  /\ UNCHANGED <<ost, ocmd, now, scen, sweep>>
+  /\ UNCHANGED <<ost, ocmd, now, scen, sweep, fol>>
   /\ hist' = Record([op |-> "disconnect", i |-> i], link', ost, ocmd)
 
 Step ==
@@ -334,6 +377,11 @@ Step ==
      /\ \/ SetState(1)
         \/ \E x \in {1, scen.nt} \cup (IF scen.nt >= 6 THEN {4} ELSE {}) : SetCmd(x)
         \/ \E j \in DevIdx : Update(j)
+  \/ /\ Family = "follow"
+     /\ \/ \E x \in 1..Len(scen.devs[1].terms), o \in {"err", "none", "some", "old"} : SetGetter(x, "s", o)
+        \/ \E x \in 1..Len(scen.devs[1].terms), o \in {"err", "some"} \cup (IF Rich THEN {"none", "old"} ELSE {}) : SetGetter(x, "c", o)
+        \/ \E x \in (Len(scen.devs[1].terms) + 1)..scen.nt : SetState(x)
+        \/ Update(1)
   \/ /\ Family \in {"match", "matchdata"}
      /\ \/ \E i, j \in Terms : Connect(i, j)
         \/ \E i \in Terms : Disconnect(i)
@@ -425,7 +473,7 @@ DiffWaits(d, l, s, s2) ==
   (d.type = "diff" /\ \E i \in Trusted(d) : IsNothing(ReadStateIn(l, s, d.terms[i]))) => s2 = s
 UpdateLaws ==
   [][\A j \in DevIdx :
-        (<<ost', ocmd'>> = DevUpdate(scen.devs[j]) /\ now' = now /\ link' = link) =>
+        (<<ost', ocmd'>> = DevUpdate(scen.devs[j], ost, ocmd) /\ now' = now /\ link' = link /\ fol' = fol) =>
             /\ ProjectionLaw(scen.devs[j], link, ost, ost')
             /\ IdempotenceLaw(scen.devs[j], link, ost, ost')
             /\ DiffWaits(scen.devs[j], link, ost, ost')
@@ -447,7 +495,7 @@ MapCmd(d, from, to, c) ==
     [] d.type = "axle" -> c
 RelayLaw ==
   [][\A j \in DevIdx :
-        (<<ost', ocmd'>> = DevUpdate(scen.devs[j]) /\ now' = now /\ link' = link /\ scen.devs[j].type # "diff") =>
+        (<<ost', ocmd'>> = DevUpdate(scen.devs[j], ost, ocmd) /\ now' = now /\ link' = link /\ scen.devs[j].type # "diff") =>
            LET d == scen.devs[j]
                nw == NewestAt(d, link, ocmd, Len(d.terms))
            IN  nw[1] # 0 =>
@@ -461,6 +509,26 @@ ChainMap(c, j) == IF j = 0 THEN c ELSE MapCmd(scen.devs[j], 1, 2, ChainMap(c, j 
 ChainLaw ==
   (Family = "chain" /\ sweep.on /\ sweep.next = Len(scen.devs) + 1) =>
      ReadCmd(scen.nt) = Just(ChainMap(sweep.cmd, Len(scen.devs)))
+
+(* Following (C15 on device terminals): an update fails exactly when a followed getter of the device reports an error, with the    *)
+(* error of the first such getter in the device's order (command before state); after a failed update the terminals behind the  *)
+(* failing one are untouched; after a successful one the pulled data were stored before the device computed.                    *)
+FirstErr(ts, i) ==
+  LET RECURSIVE F(_)
+      F(k) == IF k > Len(ts) THEN RetOk
+              ELSE LET f == fol[ts[k]]
+                   IN  IF f.on /\ IsErr(f.c) THEN RetErr(f.c.e) ELSE IF f.on /\ IsErr(f.s) THEN RetErr(f.s.e) ELSE F(k + 1)
+  IN  F(i)
+FollowLaw ==
+  \A j \in DevIdx :
+     LET d == scen.devs[j]
+         p == PullFrom(d.terms, 1, ost, ocmd)
+     IN  /\ p.ret = FirstErr(d.terms, 1)
+         /\ \A i \in 1..Len(d.terms) :
+               LET x == d.terms[i]
+               IN  /\ (fol[x].on /\ FirstErr(d.terms, 1) = RetOk /\ IsSome(fol[x].s)) => p.s[x] = Just(SD(fol[x].s.t, fol[x].s.v))
+                   /\ (~fol[x].on \/ (IsAbsent(fol[x].s) /\ FirstErr(d.terms, 1) = RetOk)) => p.s[x] = ost[x]
+         /\ \A x \in Terms : (\A i \in 1..Len(d.terms) : d.terms[i] # x) => (p.s[x] = ost[x] /\ p.c[x] = ocmd[x])
 
 EmitInv ==
   (Emit /\ n = MaxLen) =>
